@@ -19,7 +19,7 @@ func (r *Runner) coreWorld() *World {
 		}
 	}
 	return NewWorld(r.sy, WorldCfg{Rows: rows, Seed: r.cfg.Seed,
-		Stump: true, Pollard: true, MapFull: true, MapPart: true})
+		Stump: true, Pollard: !r.sy.sparse, MapFull: true, MapPart: true})
 }
 
 // substLeaf replaces every occurrence of the leaf term L<from> in a hash term by L<to>.
